@@ -131,6 +131,16 @@ def ledFlow (s : LedState) (w : World) (ws : List String) (head : String) : LedS
         | _ => (s, (0, 0))
       | _, _ => (s, (0, 0))
     else (s, (0, 0))
+  | ["bump", r, i, j] =>
+    -- `*e = h(*e)` through `get_mut` (`History.Op.updAt`): ledger class `updElem`
+    if ok then
+      match s.idx r.toNat!, w.get r.toNat! with
+      | some li, some m =>
+        match m.getIdx i.toNat! j.toNat! with
+        | .ok (.ok k) => s.apply (.updElem li k)
+        | _ => (s, (0, 0))
+      | _, _ => (s, (0, 0))
+    else (s, (0, 0))
   | ["iter", r, variant, _] =>
     if variant.startsWith "into" then
       match s.idx r.toNat! with
